@@ -526,35 +526,33 @@ def maskHistory (calls : List (Tensor Int × Tensor FVal)) : List (Res (Tensor F
 
 /-! ### structural facts of the functions that decide the property -/
 
-/-- what the translator reads off a function body -/
+/-- what the translator reads off a function body (private helpers of the same module / class are followed; the facts are
+about behaviour, not about how the body is laid out) -/
 structure FuncFacts where
   name : String
-  returns : Nat          -- `return` statements
-  inputReturns : Nat     -- returns that hand back a data parameter itself (aliasing / skipped masking)
+  unguardedInputReturns : Nat  -- returns that hand back a tensor argument itself outside an `if <arg> is None` guard
+                               -- (aliasing / skipped masking)
   stateWrites : Nat      -- `global` / `nonlocal`, writes to `self.*`, to module-level containers, to function attributes,
                          -- to mutable default arguments, caching decorators
-  inplaceOnArgs : Nat    -- subscript / augmented assignments and `…_()` / `out=` calls on a parameter
-  ifs : Nat              -- `if` statements and conditional expressions
-  loops : Nat            -- `for` / `while` / comprehensions
+  inplaceOnArgs : Nat    -- subscript / augmented assignments and `…_()` / `out=` calls on a tensor argument
+  dataBranches : Nat     -- conditions / loop ranges that depend on a tensor's shape, dtype or values or on the
+                         -- training / grad / inference mode (size thresholds, chunking, mode-dependent paths)
 deriving Repr, DecidableEq
 
-/-- no state survives a call and no argument is modified -/
-def FuncFacts.pure (f : FuncFacts) : Bool := f.stateWrites == 0 && f.inplaceOnArgs == 0
+/-- no state survives a call, no argument is modified or handed back, no size- or mode-dependent path -/
+def FuncFacts.pure (f : FuncFacts) : Bool :=
+  f.unguardedInputReturns == 0 && f.stateWrites == 0 && f.inplaceOnArgs == 0 && f.dataBranches == 0
+
+def cleanFacts (n : String) : FuncFacts :=
+  { name := n, unguardedInputReturns := 0, stateWrites := 0, inplaceOnArgs := 0, dataBranches := 0 }
 
 /-- the facts of the modelled code (what `applyMask`, `applyPadding`, `applyMaskModule`, `createSamplingMask`,
-`fwdOp`, `bwdOp`, `aStarOp`, `loglik` presuppose): straight-line functions of their arguments; the only return of an
-input is `apply_padding`'s documented `padding is None` case -/
+`fwdOp`, `bwdOp`, `aStarOp`, `loglik` presuppose): functions of their arguments only, one path for every size and
+mode; the only return of an input is `apply_padding`'s documented `padding is None` case (guarded, hence not counted) -/
 def expectedFacts : List FuncFacts :=
-  [ { name := "apply_mask", returns := 2, inputReturns := 0, stateWrites := 0, inplaceOnArgs := 0, ifs := 2, loops := 0 },
-    { name := "apply_padding", returns := 2, inputReturns := 1, stateWrites := 0, inplaceOnArgs := 0, ifs := 1, loops := 0 },
-    { name := "ApplyMaskModule.forward", returns := 1, inputReturns := 0, stateWrites := 0, inplaceOnArgs := 0, ifs := 2, loops := 0 },
-    { name := "ApplyZeroPadding.__call__", returns := 1, inputReturns := 0, stateWrites := 0, inplaceOnArgs := 0, ifs := 0, loops := 0 },
-    { name := "CreateSamplingMask.__call__", returns := 1, inputReturns := 0, stateWrites := 0, inplaceOnArgs := 0, ifs := 6, loops := 2 },
-    { name := "ModuleWrapper.SubWrapper.__call__", returns := 1, inputReturns := 0, stateWrites := 0, inplaceOnArgs := 0, ifs := 4, loops := 2 },
-    { name := "MRIModelEngine._forward_operator", returns := 1, inputReturns := 0, stateWrites := 0, inplaceOnArgs := 0, ifs := 0, loops := 0 },
-    { name := "MRIModelEngine._backward_operator", returns := 1, inputReturns := 0, stateWrites := 0, inplaceOnArgs := 0, ifs := 0, loops := 0 },
-    { name := "MRILogLikelihood.forward", returns := 1, inputReturns := 0, stateWrites := 0, inplaceOnArgs := 0, ifs := 2, loops := 0 },
-    { name := "ConjGrad._A_star_op", returns := 1, inputReturns := 0, stateWrites := 0, inplaceOnArgs := 0, ifs := 0, loops := 0 } ]
+  ["apply_mask", "apply_padding", "ApplyMaskModule.forward", "ApplyZeroPadding.__call__", "CreateSamplingMask.__call__",
+   "ModuleWrapper.SubWrapper.__call__", "MRIModelEngine._forward_operator", "MRIModelEngine._backward_operator",
+   "MRILogLikelihood.forward", "ConjGrad._A_star_op"].map cleanFacts
 
 /-! ### masking sites outside `direct/nn` (data pipeline, SSL transforms, datasets) -/
 
